@@ -25,6 +25,13 @@ CHECKS = {
    note="Acceptance is judged semantically (a mutated header still carrying both ciphertexts intact may be served). The positive direction is demanded only for the standard framings (GSS-framed NegTokenInit with krb5 first, raw KRB5 token). Virtual clock; replay cache reset per stateless case.",
    technique="bounded-exhaustive enumeration (catalogue product, single-deviation neighbourhoods of valid tokens, BFS over request sequences) on the real handler against a reference predicate",
    engine="enum+guard+bfs"),
+ "C04": dict(
+   category="exploration",
+   text="Bounded-exhaustive input enumeration for 62 entry points: every exported Unmarshal of messages / types / spnego / gssapi / pac (with the follow-up calls the library itself makes on decoded values: flag tests, name helpers, PA-data and key derivation, DecryptEncPart, GetPACType, re-Marshal), keytab / ccache / gob credentials / krb5.conf / SPN parsing, kadmin replies, DecryptMessage for the six etypes, and flows through the real client (Login, GetServiceTicket, ChangePasswd fed a replaced AS-REP / KRB-ERROR / TGS-REP / sealed enc-part plaintext / TCP stream / kpasswd reply by the simulated KDC) and the real service (VerifyAPREQ with arbitrary EncTicketPart / Authenticator plaintexts sealed under genuine keys, with and without PAC; the SPNEGO acceptor on whole tokens; the Basic authenticator header). Per seed: every prefix, every single-byte substitution (11 values quick / 255 thorough), every DER length field x 19 encodings, every structural DER edit with consistent lengths, nesting to depth 100000, every 2/4/8-byte integer window x 14 boundary values x both byte orders, character and line edits for text; plus all byte strings of length <= 2 (<= 3 thorough for cheap decoders). Oracle per input: returns (no panic, with the panicking function in the key), no fatal error / stall (worker subprocess under RLIMIT_AS with the in-flight input recorded), allocation within 1 MiB + 4 KiB per input byte + 8 x a valid seed's allocation (exact re-measurement and allocating function on excess), at most 20 s CPU.",
+   design="DESIGN.md 2/C04",
+   note="Exploration, not proof: inputs more than one deviation from a valid seed and longer than 3 bytes are outside the bound. PBKDF2 iteration counts above 131072 are abstracted (terminates, cost linear in a peer-chosen 32-bit count). Known finding: the NDR decoder of dependency jcmturner/rpc allocates by unchecked array counts. After 3 fatal deaths with one key per shard the rest of that case is skipped (reported as capped, exhaustive=false).",
+   technique="bounded-exhaustive enumeration of single-deviation mutation families and of all short inputs on the real parsers and flows, in guarded worker subprocesses",
+   engine="enum+guard"),
  "C05": dict(
    category="model_checking",
    text="Complete enumeration of the product etype(6) x plaintext length 0..130 x every key usage gokrb5 names plus boundary usages (127,128,255,256,1024,2^31) x 2-3 keys, in both directions, against an independent RFC implementation (ref/rcrypto, validated against the RFC appendix vectors on every run): what gokrb5 encrypts the reference decrypts and vice versa; the confounder recovered by the reference must be exactly the bytes drawn from the (recorded) CSPRNG and differ between two encryptions. Thorough tier: OpenJDK's Kerberos crypto decrypts every cell too.",
